@@ -286,64 +286,94 @@ func c09X4(r *Run, rep *core.Report) {
 		}
 		rep.Check(found, "C09.X4", fn(ctor)+" stores the default expiration", r.P.Pos(ctor.Pos()), "constructor stores the default expiration setting", "the constructor does not initialise the default expiration setting (Load would panic / default lost)")
 	}
-	// duration arguments keep their role across in-package calls (NewDefault -> constructor helper)
-	for _, f := range r.P.Funcs {
-		if f.Pkg != r.P.Cache {
-			continue
-		}
-		core.Instrs(f, func(in ssa.Instruction) {
-			c, ok := in.(ssa.CallInstruction)
-			if !ok {
-				return
-			}
-			cal := core.Callee(c)
-			if cal == nil || cal.Pkg != r.P.Cache || cal.Blocks == nil {
-				return
-			}
-			nd := 0
-			for _, q := range cal.Params {
-				if strings.HasSuffix(typeName(q.Type()), "Duration") {
-					nd++
-				}
-			}
-			if nd < 2 {
-				return
-			}
-			for i, a := range c.Common().Args {
-				p, isP := a.(*ssa.Parameter)
-				if !isP || i >= len(cal.Params) || !strings.HasSuffix(typeName(p.Type()), "Duration") || !strings.HasSuffix(typeName(cal.Params[i].Type()), "Duration") {
-					continue
-				}
-				rep.Check(strings.EqualFold(p.Name(), cal.Params[i].Name()), "C09.X4", fn(f)+" passes "+p.Name()+" to "+fn(cal), r.P.InstrPos(in), "duration argument keeps its role ("+p.Name()+")",
-					"duration argument "+p.Name()+" is passed as "+cal.Params[i].Name()+" of "+fn(cal)+": default expiration and cleanup interval are swapped")
-			}
-		})
-	}
-	defaultCtorFlow(r, rep, "C09.X4")
-	c09Normalise(r, rep)
-	// NewDefault variants: fields by name
+	// duration arguments keep their role from the public API to the config. The roles are fixed by the public
+	// signatures (NewDefault(defaultExpiration, cleanupInterval, ...): the first duration is the default expiration, the
+	// second the cleanup interval) and by the exported config fields; in between they are followed by value - through
+	// in-package calls whose argument is the caller's parameter - never by what a parameter happens to be called.
+	roles := durationRoles(r, rep)
+	// config fields written from duration parameters: the parameter's role is the field
 	for _, f := range r.P.Funcs {
 		if f.Pkg != r.P.Cache || f.Parent() != nil || f.Signature.Recv() != nil || f.Signature.Params().Len() < 2 {
 			continue
 		}
-		// composite literal of a config type whose fields are set from duration parameters
 		core.Instrs(f, func(in ssa.Instruction) {
 			st, ok := in.(*ssa.Store)
 			if !ok {
 				return
 			}
-			p, isP := st.Val.(*ssa.Parameter)
-			if !isP || !strings.HasSuffix(typeName(p.Type()), "Duration") {
+			p, isP := core.StripConv(st.Val).(*ssa.Parameter)
+			if !isP || !strings.HasSuffix(typeName(p.Type()), "Duration") || roles[p] == "" {
 				return
 			}
 			a := core.Addr(st.Addr)
 			if !strings.HasPrefix(a.Owner, "Config") {
 				return
 			}
-			okv := strings.EqualFold(a.Field, p.Name())
-			rep.Check(okv, "C09.X4", fn(f)+" passes "+p.Name(), r.P.InstrPos(in), "duration argument "+p.Name()+" goes to config."+a.Field, "duration argument "+p.Name()+" is written to config."+a.Field+": default expiration and cleanup interval are swapped")
+			rep.Check(a.Field == roles[p], "C09.X4", fn(f)+" stores its "+roles[p]+" argument", r.P.InstrPos(in), "the "+roles[p]+" argument goes to config."+a.Field, "the "+roles[p]+" argument is written to config."+a.Field+": default expiration and cleanup interval are swapped")
 		})
 	}
+}
+
+// durationRoles: which of the two durations each duration parameter of the constructor family carries. Seeds are the
+// public signatures; roles follow the values through in-package calls. With rep != nil the call sites are reported.
+func durationRoles(r *Run, rep *core.Report) map[*ssa.Parameter]string {
+	roles := map[*ssa.Parameter]string{}
+	durParams := func(f *ssa.Function) []*ssa.Parameter {
+		var out []*ssa.Parameter
+		for _, q := range f.Params {
+			if strings.HasSuffix(typeName(q.Type()), "Duration") {
+				out = append(out, q)
+			}
+		}
+		return out
+	}
+	for _, f := range r.P.Funcs {
+		if f.Pkg != r.P.Cache || f.Parent() != nil || f.Signature.Recv() != nil || f.Object() == nil || !f.Object().Exported() {
+			continue
+		}
+		if dp := durParams(f); len(dp) >= 2 {
+			roles[dp[0]], roles[dp[1]] = "DefaultExpiration", "CleanupInterval"
+		}
+	}
+	for changed, round := true, 0; changed && round < 6; round++ {
+		changed = false
+		for _, f := range r.P.Funcs {
+			if f.Pkg != r.P.Cache {
+				continue
+			}
+			core.Instrs(f, func(in ssa.Instruction) {
+				c, ok := in.(ssa.CallInstruction)
+				if !ok {
+					return
+				}
+				cal := core.Callee(c)
+				if cal == nil || cal.Pkg != r.P.Cache || cal.Blocks == nil || len(durParams(cal)) < 2 {
+					return
+				}
+				for i, a := range c.Common().Args {
+					p, isP := core.StripConv(a).(*ssa.Parameter)
+					if !isP || i >= len(cal.Params) || roles[p] == "" || !strings.HasSuffix(typeName(cal.Params[i].Type()), "Duration") {
+						continue
+					}
+					q := cal.Params[i]
+					switch {
+					case roles[q] == "":
+						roles[q] = roles[p]
+						changed = true
+					case roles[q] != roles[p]:
+						if rep != nil {
+							rep.Fail("C09.X4", fn(f)+" passes its "+roles[p]+" argument to "+fn(cal), r.P.InstrPos(in), fmt.Sprintf("the %s argument is passed in the position that other callers (or the public signature) use for the %s: default expiration and cleanup interval are swapped", roles[p], roles[q]))
+						}
+					default:
+						if rep != nil {
+							rep.Pass("C09.X4", fn(f)+" passes its "+roles[p]+" argument to "+fn(cal), r.P.InstrPos(in), "duration argument keeps its role ("+roles[p]+")")
+						}
+					}
+				}
+			})
+		}
+	}
+	return roles
 }
 
 // defaultCtorFlow: a constructor that takes the two durations as arguments (the NewDefault family) hands exactly
@@ -359,6 +389,7 @@ type ctorArgVerdict struct {
 
 func defaultCtorFlow(r *Run, rep *core.Report, rule string) []ctorArgVerdict {
 	var verdicts []ctorArgVerdict
+	roles := durationRoles(r, nil)
 	n := 0
 	for _, f := range r.P.Funcs {
 		if f.Pkg != r.P.Cache || f.Parent() != nil || f.Signature.Recv() != nil {
@@ -390,7 +421,54 @@ func defaultCtorFlow(r *Run, rep *core.Report, rule string) []ctorArgVerdict {
 			}
 		})
 		if !builds {
-			continue // passes its arguments on to another constructor: covered by the role-keeping rule
+			// built on the option functions instead (opts := []Option{WithDefaultExpiration(d), WithCleanupInterval(c)};
+			// New(opts...)): each duration goes, on every path, into the option of its kind, and that option value reaches
+			// a constructor call. (A function that only passes its arguments on is covered by the role-keeping rule.)
+			optCalls := map[*ssa.Parameter][]*ssa.Call{}
+			core.Instrs(f, func(in ssa.Instruction) {
+				c, ok := in.(*ssa.Call)
+				if !ok {
+					return
+				}
+				cal := core.Callee(c)
+				if cal == nil || cal.Pkg != r.P.Cache || cal.Object() == nil || !cal.Object().Exported() || !strings.HasPrefix(cal.Name(), "With") || len(c.Call.Args) != 1 {
+					return
+				}
+				if q, isP := core.StripConv(c.Call.Args[0]).(*ssa.Parameter); isP {
+					optCalls[q] = append(optCalls[q], c)
+				}
+			})
+			if len(optCalls) == 0 {
+				continue
+			}
+			rep.Fn(fn(f))
+			for _, q := range durs {
+				n++
+				cons := fn(f) + " hands " + fmt.Sprintf("a%d", paramIndexOf(f, q)) + " to the config"
+				okq, why := false, "the duration argument "+q.Name()+" is not handed to an option function"
+				for _, c := range optCalls[q] {
+					dom := true
+					core.Instrs(f, func(in ssa.Instruction) {
+						if ret, ok := in.(*ssa.Return); ok && !core.Dominates(c, ret) {
+							dom = false
+						}
+					})
+					kind := strings.TrimSuffix(strings.TrimPrefix(core.Callee(c).Name(), "With"), "Of")
+					switch {
+					case roles[q] != "" && kind != roles[q]:
+						why = "the " + roles[q] + " argument is handed to the option for " + kind + ": default expiration and cleanup interval are swapped"
+					case !dom:
+						why = "the duration argument " + q.Name() + " reaches its option only on some paths (for other values the default stays in force): a non-positive cleanup interval no longer disables the janitor / a non-positive default expiration is replaced"
+					case !reachesInPackageCall(r, c, 0):
+						why = "the option built from " + q.Name() + " is not handed on to a constructor"
+					default:
+						okq = true
+					}
+				}
+				verdicts = append(verdicts, ctorArgVerdict{f, paramIndexOf(f, q), okq})
+				rep.Check(okq, rule, cons, r.P.Pos(f.Pos()), "the argument goes into the option of its kind on every path, and the option reaches the constructor", why)
+			}
+			continue
 		}
 		rep.Fn(fn(f))
 		for _, q := range durs {
@@ -420,6 +498,51 @@ func defaultCtorFlow(r *Run, rep *core.Report, rule string) []ctorArgVerdict {
 	}
 	rep.MinCount(rule, "duration arguments of default constructors", n, 4)
 	return verdicts
+}
+
+// reachesInPackageCall: the value flows - directly, through a slice literal's backing array, append or a phi - into an
+// argument of a call of a function of the cache package.
+func reachesInPackageCall(r *Run, v ssa.Value, depth int) bool {
+	seen := map[ssa.Value]bool{}
+	var walk func(v ssa.Value, d int) bool
+	walk = func(v ssa.Value, d int) bool {
+		if v == nil || seen[v] || d > 8 || v.Referrers() == nil {
+			return false
+		}
+		seen[v] = true
+		for _, ref := range *v.Referrers() {
+			switch x := ref.(type) {
+			case *ssa.Store:
+				if x.Val == v {
+					// element of a slice literal: continue from the backing array
+					root := core.Addr(x.Addr).Root
+					if walk(root, d+1) {
+						return true
+					}
+				}
+			case *ssa.Slice, *ssa.Phi, *ssa.ChangeType, *ssa.Convert, *ssa.MakeInterface, *ssa.IndexAddr:
+				if walk(x.(ssa.Value), d+1) {
+					return true
+				}
+			case *ssa.Call:
+				if core.IsBuiltinCall(x) == "append" {
+					if walk(x, d+1) {
+						return true
+					}
+					continue
+				}
+				if cal := core.Callee(x); cal != nil && cal.Pkg == r.P.Cache {
+					for _, a := range x.Call.Args {
+						if a == v {
+							return true
+						}
+					}
+				}
+			}
+		}
+		return false
+	}
+	return walk(v, depth)
 }
 
 // optionFlow: every option function With<Field>[Of](x) returns a closure that stores x - the option's own argument,
